@@ -96,17 +96,23 @@ func buildPatch(mutIdx, structure int) []byte {
 	// file 1: bsdiff series against old file 1
 	w(&pwr.SyncHeader{Type: pwr.SyncHeader_Type(m.i32(int32(k1), "sh1.type")), FileIndex: m.i64(1, "sh1.fileIndex")}) // 4
 	w(&pwr.BsdiffHeader{TargetIndex: m.i64(1, "bh.targetIndex")})                                                   // 5
-	addLen := 2
+	addLen := 1
 	if m.cur == m.idx {
 		addLen = rt.Choice("ctrl.addLen", 5)
 	}
 	w(&bsdiff.Control{Add: make([]byte, addLen), Copy: []byte{5}, Seek: m.i64(0, "ctrl.seek"), Eof: m.boolean(false, "ctrl.eof")}) // 6
+	addLen2 := 1
+	if m.cur == m.idx {
+		addLen2 = rt.Choice("ctrl2.addLen", 5)
+	}
+	// (a second control, so that the old-file position reached by the first one's seek is actually read from)
+	w(&bsdiff.Control{Add: make([]byte, addLen2), Seek: m.i64(0, "ctrl2.seek"), Eof: m.boolean(false, "ctrl2.eof")}) // 7
 	if structure != 4 {
-		w(&bsdiff.Control{Seek: m.i64(0, "eofctrl.seek"), Eof: m.boolean(true, "eofctrl.eof")}) // 7
+		w(&bsdiff.Control{Seek: m.i64(0, "eofctrl.seek"), Eof: m.boolean(true, "eofctrl.eof")}) // 8
 	} else {
 		m.cur++
 	}
-	w(&pwr.SyncOp{Type: pwr.SyncOp_Type(m.i32(int32(pwr.SyncOp_HEY_YOU_DID_IT), "end1.type"))}) // 8
+	w(&pwr.SyncOp{Type: pwr.SyncOp_Type(m.i32(int32(pwr.SyncOp_HEY_YOU_DID_IT), "end1.type"))}) // 9
 	return buf.Bytes()
 }
 
